@@ -448,6 +448,17 @@ func (c *Cluster) byzFFStep(s *Step) {
 		}
 		victim = cands[r.Intn(len(cands))]
 	}
+	if op == "forged-validator-set" && byz != nil && c.ffAccepted == nil && s.B != 2 && r.Bool(0.4) {
+		// a joining node whose only configured peer is the forger: the forger first
+		// answers its JoinRequest ("accepted", with a list of current validators of
+		// its own invention), then its FastForwardRequest with the forged set -
+		// an unauthenticated peer list must not become a reason to trust
+		if v := c.joinThroughForger(byz, &frame); v != nil {
+			victim = v
+			nodeLevel = true
+			c.stats.probe("ff-forged-set-after-forged-join-response")
+		}
+	}
 	before := c.digest(victim)
 	c.hostile, c.hostileSeen = true, true
 	var err error
@@ -509,6 +520,58 @@ func (c *Cluster) byzFFStep(s *Step) {
 			c.ensureObserver(true)
 		}
 	}
+}
+
+// joinThroughForger starts a fresh observer that is not among its own configured
+// peers (state Joining), lets the real Node.join() talk to the forger and returns
+// the node once it is CatchingUp (nil if the join did not get there).
+func (c *Cluster) joinThroughForger(byz *SimNode, frame *hg.Frame) *SimNode {
+	if c.observer != nil && c.observer.running() {
+		func() {
+			defer func() { recover() }()
+			c.observer.node.Shutdown()
+		}()
+	}
+	var o *SimNode
+	if c.observer == nil {
+		o = c.addIdentity()
+		c.observer = o
+	} else {
+		o = c.observer
+		o.epoch++
+		o.app = nil
+	}
+	o.storeKind = "inmem"
+	o.cacheSize = c.cfg.CacheSize
+	o.fastSync = true
+	o.configuredPeers = []*peers.Peer{byz.peer()}
+	o.genesisPeers = nil
+	for _, m := range c.genesisSet {
+		o.genesisPeers = append(o.genesisPeers, m.peer())
+	}
+	o.isObserver = true
+	if err := c.startNode(o, false); err != nil {
+		panic(harnessError{"joining observer: " + err.Error()})
+	}
+	c.newSegment(o, -1)
+	if o.state() != _state.Joining {
+		return nil
+	}
+	forgedPeers := clonePeers(frame.Peers)
+	c.net.responders[byz.addr] = func(k string, args interface{}) (interface{}, error) {
+		if k == "join" {
+			return &net.JoinResponse{FromID: byz.id, Accepted: true, AcceptedRound: frame.Round + 1, Peers: forgedPeers}, nil
+		}
+		return nil, errRefused
+	}
+	c.hostile, c.hostileSeen = true, true
+	err := o.node.SimJoin()
+	c.hostile = false
+	delete(c.net.responders, byz.addr)
+	if err != nil || !o.running() || o.state() != _state.CatchingUp {
+		return nil
+	}
+	return o
 }
 
 // forgeValidatorSet builds an internally consistent (block, frame) whose
